@@ -76,6 +76,19 @@ CLAIMED = {
              "mode never consults the document, summary counts = number of denials per key, order-independent. Tied to the real listener: "
              "sequences and concurrent bursts of requests, get_all_failed_connection_summary() compared per key.",
         design="§7 C11", technique=E2E_TECH),
+    "C12": dict(
+        text="Lean theorem key_never_leaves_store: in a taint model of the key keeper's iteration, the signing branch, the status message "
+             "and everything derived from it (status.json, status.tag, /provision reply, connection log), for every history of polls with "
+             "any host answers (error statuses, malformed key bodies that contain the key, keys that are not hex), client requests, "
+             "provisioning queries, status ticks, the deadline and restarts, no text written outside <keydir>/<guid>.key contains a key "
+             "value (MACs and guids may); acl_before_first_key_file: chmod 0700 of the key directory precedes the first key file in every "
+             "history. The variant of the two input-echoing error texts is read from the source (generated facts); kernel-checked negative "
+             "witnesses show both pre-fix leaks (fixed in /repo by two fix: commits). Tied to the real key keeper + listener + file loggers "
+             "+ event logger + status task in one process against a lock-step mock host: every history is replayed on the model and "
+             "compared emission by emission (sink, statement, guid flow), every byte written anywhere or returned to a local client is "
+             "searched for every key value the host issued, and a syscall trace gives the mkdir/chown/chmod/create order. Serial console "
+             "output and the Windows key store are not observed (partial).",
+        design="§7 C12, §8 F6", technique="Lean 4 proof over a taint (information-flow) model + canary search and lock-step differential correspondence on the real agent parts"),
     "C13": dict(
         text="Lean theorems for the modelled panic sites: the char-boundary truncation is total, bounded by the cap, a prefix, maximal, and "
              "equal to the old slice wherever the old slice did not panic; utf-16 unit decoding is total and agrees with the old code on "
